@@ -4,7 +4,7 @@
 on their real text; `parse_proguard_record` is abstract here (signature only, contract = progress + "function of the bytes";
 progress is PROVED for the real body in unit u5).
 """
-from vf.unit import Unit
+from vf.unit import Unit, AnchorLost
 from .common import HEADER, FOOTER, contract, extract_struct, extract_struct_priv
 
 PARSE_RECORD_CONTRACT = """    ensures
@@ -88,6 +88,11 @@ def build():
     cl = mp.fn("consume_leading_newlines")
     cl.ret("ret")
     cl.contract("    ensures ret@ == skip_nl(bytes@),")
+    # the only stub of a /repo function in this unit that carries a semantic clause: it must be, textually, the clause unit u5 proves for the body
+    import inspect
+    from . import u5_parser
+    if "ret@ == skip_nl(bytes@)," not in inspect.getsource(u5_parser):
+        raise AnchorLost("consume_leading_newlines: the contract assumed here is not the one unit u5 proves")
     cl.drop_body("consume_leading_newlines is verified in unit u5; here only its signature and contract are used")
     u.raw("""pub open spec fn spec_is_newline(b: u8) -> bool { b == 13u8 || b == 10u8 }
 pub open spec fn skip_nl(b: Seq<u8>) -> Seq<u8>
